@@ -42,6 +42,11 @@ pub struct Cfg {
     pub dense: bool,
     /// Largest day offset in "normal" mode.
     pub max_day_offset: i64,
+    /// Percentage of rules restricted to the constructs the normaliser understands (plain
+    /// weekday/month/week/year ranges without steps, fixed spans inside the day).
+    pub canonical_pct: u32,
+    /// (internal) the rule being generated is restricted to canonical constructs
+    pub canonical: bool,
 }
 
 impl Default for Cfg {
@@ -56,6 +61,8 @@ impl Default for Cfg {
             events: true,
             dense: false,
             max_day_offset: 10,
+            canonical_pct: 0,
+            canonical: false,
         }
     }
 }
@@ -248,7 +255,31 @@ fn gen_time_end(ch: &mut Choices, cfg: &Cfg, out: &mut String, start: &Time) -> 
     Time::Fixed(ExtendedTime::new(h as u8, m as u8).unwrap())
 }
 
+fn gen_timespan_canonical(ch: &mut Choices, out: &mut String) -> TimeSpan {
+    let (a, b) = match ch.weighted(&[60, 25, 15]) {
+        0 => {
+            let a = 60 * ch.draw(24);
+            (a, (a + 60 * (1 + ch.draw(10))).min(1440))
+        }
+        1 => {
+            let a = 15 * ch.draw(95);
+            (a, (a + 15 * (1 + ch.draw(40))).min(1440))
+        }
+        _ => (0, 1440),
+    };
+    write_hhmm(ch, out, a / 60, a % 60);
+    out.push('-');
+    write_hhmm(ch, out, b / 60, b % 60);
+    TimeSpan::fixed_range(
+        ExtendedTime::from_mins_from_midnight(a as u16).unwrap(),
+        ExtendedTime::from_mins_from_midnight(b as u16).unwrap(),
+    )
+}
+
 fn gen_timespan(ch: &mut Choices, cfg: &Cfg, out: &mut String) -> TimeSpan {
+    if cfg.canonical {
+        return gen_timespan_canonical(ch, out);
+    }
     let start = gen_time_start(ch, cfg, out);
     // `10:00+`
     if ch.chance(5) {
@@ -343,7 +374,7 @@ fn gen_nth(ch: &mut Choices, out: &mut String) -> ([bool; 5], [bool; 5]) {
 fn gen_weekday_range(ch: &mut Choices, cfg: &Cfg, out: &mut String) -> WeekDayRange {
     let a = ch.pick(&WDAYS);
     out.push_str(wday_str(a));
-    match ch.weighted(&[40, 35, 25]) {
+    match ch.weighted(&[40, 35, if cfg.canonical { 0 } else { 25 }]) {
         0 => WeekDayRange::Fixed {
             range: a..=a,
             offset: 0,
@@ -381,8 +412,14 @@ fn gen_holiday(ch: &mut Choices, cfg: &Cfg, out: &mut String) -> WeekDayRange {
 }
 
 fn gen_weekday_selector(ch: &mut Choices, cfg: &Cfg, out: &mut String) -> Vec<WeekDayRange> {
-    let n_wd = ch.weighted(&[15, 60, 20, 5]);
-    let n_hol = if n_wd == 0 { 1 + ch.weighted(&[80, 20]) } else { ch.weighted(&[80, 16, 4]) };
+    let n_wd = if cfg.canonical { 1 + ch.weighted(&[70, 25, 5]) } else { ch.weighted(&[15, 60, 20, 5]) };
+    let n_hol = if cfg.canonical {
+        0
+    } else if n_wd == 0 {
+        1 + ch.weighted(&[80, 20])
+    } else {
+        ch.weighted(&[80, 16, 4])
+    };
     let holidays_first = ch.chance(50);
     let mut res = Vec::new();
     let emit_wd = |ch: &mut Choices, out: &mut String, res: &mut Vec<WeekDayRange>| {
@@ -447,7 +484,7 @@ fn gen_week_selector(ch: &mut Choices, cfg: &Cfg, out: &mut String) -> Vec<WeekR
         }
         let a = gen_weeknum(ch);
         write_weeknum(ch, out, a);
-        match ch.weighted(&[40, 35, 25]) {
+        match ch.weighted(&[40, 35, if cfg.canonical { 0 } else { 25 }]) {
             0 => res.push(WeekRange { range: WeekNum(a)..=WeekNum(a), step: 1 }),
             1 => {
                 let b = gen_weeknum(ch);
@@ -478,7 +515,7 @@ fn gen_week_selector(ch: &mut Choices, cfg: &Cfg, out: &mut String) -> Vec<WeekR
 fn gen_year_range(ch: &mut Choices, cfg: &Cfg, out: &mut String) -> YearRange {
     let a = gen_year(ch, cfg);
     out.push_str(&a.to_string());
-    match ch.weighted(&[35, 30, 15, 20]) {
+    match ch.weighted(&[35, 30, 15, if cfg.canonical { 0 } else { 20 }]) {
         0 => YearRange { range: Year(a)..=Year(a), step: 1 },
         1 => {
             let b = if ch.chance(85) { (a + ch.draw(6) as u16).min(9999) } else { gen_year(ch, cfg) };
@@ -590,10 +627,11 @@ fn gen_wday_offset(ch: &mut Choices, out: &mut String) -> WeekDayOffset {
 }
 
 fn gen_monthday_range(ch: &mut Choices, cfg: &Cfg, out: &mut String) -> MonthdayRange {
-    match ch.weighted(&[22, 16, 16, 8, 28, 10]) {
+    let w = if cfg.canonical { [22, 16, 0, 0, 0, 0] } else { [22, 16, 16, 8, 28, 10] };
+    match ch.weighted(&w) {
         // month or month range, optional year
         0 | 1 => {
-            let year = if ch.chance(20) { Some(gen_year(ch, cfg)) } else { None };
+            let year = if !cfg.canonical && ch.chance(20) { Some(gen_year(ch, cfg)) } else { None };
             if let Some(y) = year {
                 out.push_str(&y.to_string());
             }
@@ -670,16 +708,23 @@ fn gen_monthday_range(ch: &mut Choices, cfg: &Cfg, out: &mut String) -> Monthday
             let end_off = if ch.chance(12) { gen_date_offset(ch, cfg, out) } else { DateOffset::default() };
             // denotation: same month, or the next one when the day number decreases (the year
             // rolls over after December)
-            let (mut end_month, mut end_year) = (month, year);
+            let (mut end_month, mut end_year, mut end_day_denoted) = (month, year, end_day);
             if day > end_day {
                 end_month = month.next();
                 if end_month == Month::January {
-                    end_year = end_year.map(|y| y + 1);
+                    if end_year == Some(9999) {
+                        // the range continues after the last supported year: it denotes a range
+                        // ending on the last supported day
+                        end_month = Month::December;
+                        end_day_denoted = 31;
+                    } else {
+                        end_year = end_year.map(|y| y + 1);
+                    }
                 }
             }
             MonthdayRange::Date {
                 start: (Date::Fixed { year, month, day }, start_off),
-                end: (Date::Fixed { year: end_year, month: end_month, day: end_day }, end_off),
+                end: (Date::Fixed { year: end_year, month: end_month, day: end_day_denoted }, end_off),
             }
         }
     }
@@ -729,6 +774,13 @@ fn gen_comment_text(ch: &mut Choices, hostile: bool) -> String {
 }
 
 fn gen_rule(ch: &mut Choices, cfg: &Cfg, out: &mut String, operator: RuleOperator) -> GenRule {
+    let canonical_cfg;
+    let cfg = if cfg.canonical_pct > 0 && ch.chance(cfg.canonical_pct) {
+        canonical_cfg = Cfg { canonical: true, ..cfg.clone() };
+        &canonical_cfg
+    } else {
+        cfg
+    };
     let mut comments: Vec<Arc<str>> = Vec::new();
     let mut day = DaySelector::default();
     let mut time = TimeSelector::default();
